@@ -9,7 +9,7 @@ static const Info I = {
     "(nothing is checked after it - unspecified); skip modes strictly increasing, skip_to_recent == newest; next() never suspends while unread values exist; close/destroy wakes every parked subscriber. Threads: a publisher thread (values, a batch, then close or destroy) "
     "against 1..3 subscriber threads (coroutine or blocking) registered before the first value on an unlimited queue: each all_values subscriber sees exactly 1..N. Non-trivial = (history) a read with lag >= 2 or a parked subscriber woken, (threads) >=1 context switch; "
     "distinct = hash(decoded program, executed switch trace).",
-    scen_pub::class_names, 4, scen_pub::counter_names, 4};
+    scen_pub::class_names, 4, scen_pub::counter_names, 5};
 const Info &info() { return I; }
 void run_case(Reader &r) { scen_pub::run(r); }
 std::string describe(Reader &r) { return scen_pub::describe(r); }
